@@ -49,7 +49,10 @@ func (h *raceH) oracle(f string, a ...any) {
 
 // ---- window: overwrite / removal racing with Send ----
 
-type countPayload struct{ hits [3]int32 }
+type countPayload struct {
+	hits [3]int32
+	slow time.Duration // how long the slow root takes for this event
+}
 
 type markNode struct{ ver int }
 
@@ -61,6 +64,29 @@ func (m *markNode) Process(ctx context.Context, e *eventlogger.Event) (*eventlog
 }
 func (m *markNode) Reopen() error              { return nil }
 func (m *markNode) Type() eventlogger.NodeType { return eventlogger.NodeTypeFilter }
+
+// slowMark: a root node that takes a while, so that a Send's walk over the pipelines of the type
+// overlaps registrations and removals
+type slowMark struct {
+	d time.Duration
+	n int64
+}
+
+func (m *slowMark) Process(ctx context.Context, e *eventlogger.Event) (*eventlogger.Event, error) {
+	// the event says how long its walk stays in this root: walks started in one order need not end in it
+	k := atomic.AddInt64(&m.n, 1)
+	d := m.d/3 + time.Duration(k*7919%40)*time.Microsecond
+	if p, ok := e.Payload.(*countPayload); ok && p.slow > 0 {
+		d = p.slow
+	}
+	time.Sleep(d)
+	if p, ok := e.Payload.(*countPayload); ok {
+		atomic.AddInt32(&p.hits[0], 1)
+	}
+	return nil, nil
+}
+func (m *slowMark) Reopen() error              { return nil }
+func (m *slowMark) Type() eventlogger.NodeType { return eventlogger.NodeTypeFilter }
 
 type nopSink struct{}
 
@@ -127,26 +153,29 @@ func raceWindow(h *raceH, p *prng, rounds int) {
 	wg.Wait()
 	h.st.hit("window:overwrite-rounds")
 	h.st.Ops += int(sends)
-	// registration / removal windows (C04)
+	// registration / removal windows (C04); a second pipeline of the type with a slow root keeps every
+	// Send's walk over the type's pipelines going for a while
+	must(b.RegisterNode("slow", &slowMark{d: 60 * time.Microsecond}))
+	must(b.RegisterPipeline(eventlogger.Pipeline{PipelineID: "s", EventType: "u", NodeIDs: []eventlogger.NodeID{"slow", "fmt", "sink"}}))
 	for i := 0; i < rounds/4+1; i++ {
+		var wg2 sync.WaitGroup
+		wg2.Add(1)
+		go func() { // Sends overlapping the registration and the removal: zero or one delivery each
+			defer wg2.Done()
+			for k := 0; k < 6; k++ {
+				c := &countPayload{slow: time.Duration(150+k*130) * time.Microsecond}
+				b.Send(context.Background(), "u", c)
+				if c.hits[1] > 1 || c.hits[0] != 1 {
+					h.oracle("C04 overlapping Send delivered %d times to q and %d times to the pipeline that was registered all along", c.hits[1], c.hits[0])
+				}
+			}
+		}()
 		must(b.RegisterPipeline(eventlogger.Pipeline{PipelineID: "q", EventType: "u", NodeIDs: []eventlogger.NodeID{"v1", "fmt", "sink"}}))
 		cp := &countPayload{}
 		b.Send(context.Background(), "u", cp)
 		if cp.hits[1] != 1 {
 			h.oracle("C04 a Send after RegisterPipeline returned delivered %d times", cp.hits[1])
 		}
-		var wg2 sync.WaitGroup
-		wg2.Add(1)
-		go func() { // overlapping sends: zero or one
-			defer wg2.Done()
-			for k := 0; k < 20; k++ {
-				c := &countPayload{}
-				b.Send(context.Background(), "u", c)
-				if c.hits[1] > 1 {
-					h.oracle("C04 overlapping Send delivered %d times", c.hits[1])
-				}
-			}
-		}()
 		must(b.RemovePipeline("u", "q"))
 		cp = &countPayload{}
 		b.Send(context.Background(), "u", cp)
@@ -154,6 +183,12 @@ func raceWindow(h *raceH, p *prng, rounds int) {
 			h.oracle("C04 a Send after RemovePipeline returned still delivered %d times", cp.hits[1])
 		}
 		wg2.Wait()
+		// ... and once the overlapping senders are done, too (nothing they saw may stick)
+		cp = &countPayload{}
+		b.Send(context.Background(), "u", cp)
+		if cp.hits[1] != 0 || cp.hits[0] != 1 {
+			h.oracle("C04 at quiescence after RemovePipeline a Send delivered %d times to the removed pipeline and %d times to the remaining one", cp.hits[1], cp.hits[0])
+		}
 	}
 }
 
